@@ -173,6 +173,16 @@ class Level:
         out = [(n, s["name"]) for s in self.subs for n in self.sub_names(s)]
         return out + [(b"help", b"help")]
 
+    def shadowed(self, n):
+        """is the exact long flag-subcommand name `n` taken by argument inference first?  (parse_long_arg
+        looks for an inferred argument before it looks at flag subcommands.)  None = cannot tell."""
+        if "infer_long_args" not in self.settings:
+            return False
+        if b"help".startswith(n) or b"version".startswith(n):
+            return None
+        r = {a["id"] for a in self.opts if any(x.startswith(n) for x in self.long_names(a))}
+        return len(r) == 1
+
     def all_lflag_names(self):
         return [(n, s["name"]) for s in self.subs for n in self.lflag_names(s)]
 
@@ -261,17 +271,24 @@ def scan(cmd, argv):
                 return sites
             if tok.startswith(b"--"):
                 pos_suffix_start = None
+                pst = "done"      # after any flag the parser is back in ValuesDone (or Opt)
                 body = tok[2:]
                 name, eq, val = body.partition(b"=")
                 a = L.longs.get(name)
                 if a is None:
+                    if "infer_long_args" in S and any(n.startswith(name) for n, _ in L.all_long_names()):
+                        return sites      # an inferred argument (or ambiguous): not a spelling this scan starts from
                     # exact long flag of a subcommand?
                     hit = [s for s in L.subs if name in L.lflag_names(s)]
                     if hit and not eq:
                         s = hit[0]
                         for n in L.lflag_names(s):
                             if n != name:
-                                rep(i, 1, [b"--" + n], "long-flag-sub alias")
+                                sh = L.shadowed(n)
+                                if sh is False:
+                                    rep(i, 1, [b"--" + n], "long-flag-sub alias")
+                                elif sh is True:
+                                    rep(i, 1, [b"--" + n], "KNOWN long-flag-sub alias shadowed by an inferred arg")
                         if "infer_subcommands" in S:
                             argtab = L.all_long_names()
                             for p in unique_prefixes(name, s["name"], L.all_lflag_names()):
@@ -320,6 +337,7 @@ def scan(cmd, argv):
                 continue
             if tok.startswith(b"-"):
                 pos_suffix_start = None
+                pst = "done"
                 body = tok[1:]
                 try:
                     chars = body.decode("ascii")
@@ -397,7 +415,10 @@ def scan(cmd, argv):
                         if not L.pos and "allow_external_subcommands" not in S and not cur.get("ext"):
                             for full in L.sub_names(s):
                                 if full.startswith(tok) or tok.startswith(full):
-                                    for p in ambiguous_prefixes(full, s["name"], tab, tab):
+                                    real = [(n, x["name"]) for x in L.subs for n in L.sub_names(x)]
+                                    if L.has_help_sub:
+                                        real.append((b"help", b"help"))
+                                    for p in ambiguous_prefixes(full, s["name"], real, tab):
                                         rep(i, 1, [p], "AMBIG sub prefix")
                     inh_s, inh_g, cur = L.child_settings, L.child_globals, s
                     i += 1
@@ -430,7 +451,7 @@ def scan(cmd, argv):
 
 # ---------------------------------------------------------------- generation
 PROFILE = dict(hyphen=0.03, terminators=0.03, low_index=0.02, relations=0.08, groups=0.12, invalid=0.01,
-               ignore_errors=0.04, infer=0.5, aliases=0.55, external=0.05, last=0.06, tva=0.05,
+               ignore_errors=0.02, infer=0.5, aliases=0.55, external=0.05, last=0.06, tva=0.05,
                require_equals=0.06, flag_subs=0.35, settings=0.08, typed=0.1, env=0.1)
 
 
@@ -494,21 +515,59 @@ def split2(r):
     return a, b
 
 
-def is_ambig_case(case):
-    """a case whose B was produced by an ambiguous-prefix replacement: re-derived from the case itself
-    (B is one of the AMBIG sites of A)"""
+def decode(case):
     sx = sx_parse(case)
-    cmd = cmd_of_sx(sx[1][1:])
-    a = [unhex(t) for t in sx[2][1:]]
-    b = [unhex(t) for t in sx[3][1:]]
-    for k, nb in scan(cmd, a):
-        if nb == b:
-            return k.startswith("AMBIG")
-    return None
+    return (cmd_of_sx(sx[1][1:]), [unhex(t) for t in sx[2][1:]], [unhex(t) for t in sx[3][1:]])
+
+
+def _lcp(x, y):
+    n = 0
+    while n < len(x) and n < len(y) and x[n] == y[n]:
+        n += 1
+    return n
+
+
+def derive(cmd, a, b, depth=3):
+    """How is B obtained from A?  -> 'ambig' (one ambiguous-prefix replacement), 'equiv' (<= depth equivalence
+    rewrites), 'known' (<= depth rewrites, at least one of a KNOWN kind on every path found), None (B is not a
+    respelling of A that this module can justify: the oracle then says nothing).  The search keeps only
+    intermediate lines that agree with B at least as far (from both ends) as their predecessor."""
+    if a == b:
+        return "same"
+    best = None
+    seen = set()
+    frontier = [(a, False)]
+    for d in range(depth):
+        nxt = []
+        for cur, tainted in frontier:
+            pre, suf = _lcp(cur, b), _lcp(cur[::-1], b[::-1])
+            for k, nb in scan(cmd, cur):
+                if k.startswith("AMBIG"):
+                    if d == 0 and nb == b:
+                        return "ambig"
+                    continue
+                t = tainted or k.startswith("KNOWN")
+                if nb == b:
+                    if not t:
+                        return "equiv"
+                    best = "known"
+                    continue
+                if _lcp(nb, b) < pre or _lcp(nb[::-1], b[::-1]) < suf:
+                    continue
+                key = (tuple(nb), t)
+                if key in seen:
+                    continue
+                seen.add(key)
+                nxt.append((nb, t))
+        frontier = nxt[:2000]
+    return best
 
 
 def has_setting(cmd, name):
     return name in cmd["settings"] or any(has_setting(s, name) for s in cmd["subs"])
+
+
+KNOWN_MARK = "[family: exact long flag-subcommand name shadowed by an inferred argument]"
 
 
 def oracle(case, impl):
@@ -517,25 +576,25 @@ def oracle(case, impl):
         return "no result pair: %r" % (impl,)
     if not ra.startswith("ok "):
         return None                      # the property quantifies over successful command lines
-    sx = sx_parse(case)
-    a = [unhex(t) for t in sx[2][1:]]
-    b = [unhex(t) for t in sx[3][1:]]
+    cmd, a, b = decode(case)
+    if has_setting(cmd, "ignore_errors"):
+        # `Ok` under ignore_errors does not mean the line was accepted (errors are swallowed and the partially
+        # filled matches are returned): not a successful command line in the sense of the property
+        return None
     if a == b:
         return None if ra == rb else "the same command line parsed twice gives different results: %s vs %s" % (ra, rb)
-    amb = is_ambig_case(case)
-    if amb is None:
-        # B is a composition of rewrites (not a single site of A): equivalence expected
-        amb = False
-    if amb:
-        cmd = cmd_of_sx(sx[1][1:])
-        if has_setting(cmd, "ignore_errors"):
-            return None
+    # one scan decides whether B is an ambiguous-prefix replacement in A
+    if any(k.startswith("AMBIG") and nb == b for k, nb in scan(cmd, a)):
         if rb.startswith("ok "):
             return "an ambiguous prefix was silently resolved: A=%s B=%s" % (ra[:300], rb[:300])
         return None
-    if ra != rb:
-        return "equivalent spellings parse differently: A=%s B=%s" % (ra[:600], rb[:600])
-    return None
+    if ra == rb:
+        return None
+    how = derive(cmd, a, b)
+    if how is None:
+        return None                      # not a pair of spellings of one invocation (e.g. a shrinking candidate)
+    return "equivalent spellings parse differently%s: A=%s B=%s" % (
+        " " + KNOWN_MARK if how == "known" else "", ra[:600], rb[:600])
 
 
 def project_one(r):
@@ -581,7 +640,12 @@ def streams(tier, rng):
     return out
 
 
+KNOWN_SHADOW = "C08-flag-sub-name-shadowed-by-inferred-arg"
+
+
 def classify_known(stream, case, impl, failure):
+    if failure and KNOWN_MARK in failure:
+        return KNOWN_SHADOW
     return None
 
 
